@@ -28,15 +28,15 @@ func init() { register("C09", runC09) }
 
 // field classes of the generated data: name → ZSON spellings of candidate values
 var c09Fields = map[string][]string{
-	"s": {`"a"`, `"b"`, `"c"`, `""`, `"a"`},                 // strings (dict/const encodable)
-	"n": {"1", "2", "3", "-4", "0", "100"},                  // int64
-	"u": {"1(uint64)", "2(uint64)", "7(uint64)"},            // uint64
-	"x": {"1.", "2.5", "-0.5", "4."},                        // float64
-	"b": {"true", "false"},                                  // bool
-	"z": {"null(int64)", "5", "null(int64)", "6"},           // int64 with nulls
-	"t": {`"a"`, "null(string)", `"b"`},                     // string with nulls
-	"m": {"1", `"a"`, "2.", "null", "3(uint64)"},            // mixed types (a union-less heterogeneous column via different record types)
-	"c": {"7"},                                              // constant
+	"s": {`"a"`, `"b"`, `"c"`, `""`, `"a"`},       // strings (dict/const encodable)
+	"n": {"1", "2", "3", "-4", "0", "100"},        // int64
+	"u": {"1(uint64)", "2(uint64)", "7(uint64)"},  // uint64
+	"x": {"1.", "2.5", "-0.5", "4."},              // float64
+	"b": {"true", "false"},                        // bool
+	"z": {"null(int64)", "5", "null(int64)", "6"}, // int64 with nulls
+	"t": {`"a"`, "null(string)", `"b"`},           // string with nulls
+	"m": {"1", `"a"`, "2.", "null", "3(uint64)"},  // mixed types (a union-less heterogeneous column via different record types)
+	"c": {"7"},                                    // constant
 }
 
 func c09Row(r *rt.Rand, id int, fields []string, missingChance int) string {
@@ -102,7 +102,7 @@ func c09Lake(c *rt.Ctx, o *rt.Obs) {
 		for _, p := range progs {
 			var recs []gen.Rec
 			var err error
-			ok, pan, _ := rt.Watchdog(90*time.Second, func() { recs, err = l.QueryPar(ctx, p, 2) })
+			ok, pan, _ := rt.Watchdog(60*time.Second, func() { recs, err = l.QueryPar(ctx, p, 2) })
 			if !ok {
 				err = fmt.Errorf("hang: query did not return within the watchdog")
 			} else if pan != nil {
@@ -395,25 +395,30 @@ func c09Prog(c *rt.Ctx, o *rt.Obs) {
 		return
 	}
 	var vec c09Out
-	okw, _, _ := rt.Watchdog(90*time.Second, func() {
-		defer func() {
-			if p := recover(); p != nil {
-				sig, _ := rt.PanicSignature(p)
-				vec.err = fmt.Errorf("panic: %s", sig)
+	runVec := func(limit time.Duration) bool {
+		vec = c09Out{}
+		okw, _, _ := rt.Watchdog(limit, func() {
+			defer func() {
+				if p := recover(); p != nil {
+					sig, _ := rt.PanicSignature(p)
+					vec.err = fmt.Errorf("panic: %s", sig)
+				}
+			}()
+			vo := vcache.NewObjectFromVNG(obj)
+			rctx := runtime.NewContext(ctx, zed.NewContext())
+			defer rctx.Cancel()
+			p, err := compiler.VectorCompile(rctx, text, vo)
+			if err != nil {
+				vec.err = fmt.Errorf("compile: %w", err)
+				return
 			}
-		}()
-		vo := vcache.NewObjectFromVNG(obj)
-		rctx := runtime.NewContext(ctx, zed.NewContext())
-		defer rctx.Cancel()
-		p, err := compiler.VectorCompile(rctx, text, vo)
-		if err != nil {
-			vec.err = fmt.Errorf("compile: %w", err)
-			return
-		}
-		vec.recs, vec.noErr, vec.err = c09Pull(p)
-	})
-	if !okw {
-		vec = c09Out{err: fmt.Errorf("hang: vector program did not return within the watchdog")}
+			vec.recs, vec.noErr, vec.err = c09Pull(p)
+		})
+		return okw
+	}
+	// A hang counts only when confirmed by a second, longer solo attempt.
+	if !runVec(10*time.Second) && !runVec(60*time.Second) {
+		vec = c09Out{err: fmt.Errorf("hang: vector program did not return within the watchdog (10 s, then 60 s)")}
 	}
 	if vec.err != nil && strings.HasPrefix(vec.err.Error(), "compile:") {
 		o.Count("programs_rejected_by_vector_compiler", 1)
